@@ -22,19 +22,22 @@ inductive GCPolicy where
   | default | share | isolate
 deriving DecidableEq, Repr
 
-/-- the part of a `RuntimeContextDef` that decides about the pool: which hard limits are set, and the GC policy -/
+/-- the part of a `RuntimeContextDef` that decides about the pool: which hard limits are set, whether any
+    compliance flag is required (`RequiredFlags != 0`), and the GC policy -/
 structure CtxDef where
   cpu : Bool := false
   mem : Bool := false
   millis : Bool := false
   policy : GCPolicy := .default
+  flags : Bool := false
 deriving DecidableEq, Repr
 
 /-- mirror of the condition in `runtimeContextManager.PushContext`: the new context gets its OWN pool
-    (`IsolateGCPolicy`) iff the policy asks for it or ANY hard limit (cpu, memory, time) is set;
-    otherwise it shares its parent's pool -/
+    (`IsolateGCPolicy`) iff the policy asks for it, or ANY hard limit (cpu, memory, time) is set, or it
+    REQUIRES COMPLIANCE FLAGS ("a context with limits or with required flags runs the finalizers of its own
+    values itself, so that they are subject to its restrictions"); otherwise it shares its parent's pool -/
 def isolates (d : CtxDef) : Bool :=
-  d.policy == .isolate || d.millis || d.cpu || d.mem
+  d.policy == .isolate || d.millis || d.cpu || d.mem || d.flags
 
 /-- mirror of `(*UserData).MarkFlags` (runtime/userdata.go): (Finalize, Release).  Release iff the wrapped Go
     value implements `UserDataResourceReleaser` — whatever the metatable, even none; Finalize iff the
@@ -102,6 +105,44 @@ def wouldRegister (p : Pool) (o : Obj) : Bool :=
   | none => true
   | some rg => (regLookup rg o.key).isNone
 
+/-- mirror of `(*Runtime).markingPool`: which pool of `cur :: enclosing` gets the mark of a value with key `k`.
+    Only the pools of ENCLOSING contexts are asked (`Marked`), innermost first (every element of the list is a
+    different pool: contexts that share a pool contribute one element); the first that has the value is re-marked
+    (index i + 1); otherwise the current context's pool (index 0).  "A value belongs to the context in which it
+    was first marked." -/
+def markingIdx : List Pool → Nat → Nat
+  | [], _ => 0
+  | q :: enclosing, k =>
+    if marked q k then 1
+    else match markingIdx enclosing k with
+      | 0 => 0
+      | i + 1 => i + 2
+
+/-- apply `f` to the `i`-th element -/
+def applyAt (f : Pool → Pool) : Nat → List Pool → List Pool
+  | _, [] => []
+  | 0, p :: t => f p :: t
+  | i + 1, p :: t => p :: applyAt f i t
+
+/-- `addFinalizer` with non-zero flags: `markingPool(ref).Mark(ref, flags)` -/
+def markRt (s : Rt) (o : Obj) (f r : Bool) : Rt :=
+  match s.live with
+  | [] => s
+  | p :: rest =>
+    let i := markingIdx rest o.key
+    let target := ((p :: rest)[i]?).getD p
+    -- a NEW registration first does `SetFinalizer(o, nil)`: Go keeps one finaliser per object, so whichever
+    -- pool (live or not) had left its finaliser on `o` loses it
+    let clr := fun (q : Pool) => if wouldRegister target o then clearFinalizer q o else q
+    let live1 := (p :: rest).map clr
+    let dead1 := s.dead.map clr
+    -- the model of runtime.SetFinalizer still throws on a double set; after the clearing it cannot happen
+    if wouldRegister target o && (live1 ++ dead1).any (fun q => q.goReg.contains o) then
+      { s with fatal := true }
+    else
+      let live2 := applyAt (fun q => use q (.mark o f r)) i live1
+      { s with live := live2, dead := dead1, fatal := s.fatal || live2.any (fun q => q.fatal) }
+
 /-- the primitive moves -/
 inductive Prim where
   /-- `SetRawMetatable` / `NewUserDataValue` → `addFinalizer` (which ignores flags = 0) -/
@@ -117,21 +158,14 @@ inductive Prim where
   | pushShare
   /-- `PopContext` of a pool-sharing context: nothing happens to any pool -/
   | popShare
-  /-- the metatable with which value `k` has just been marked in the current pool has a `__gc` that raises -/
+  /-- the metatable with which value `k` has just been marked (in the pool that looks after it) has a `__gc` that raises -/
   | setRaise (k : Nat)
 deriving DecidableEq, Repr
 
 def prim (s : Rt) (e : Prim) : Rt :=
   if s.fatal then s else
   match e with
-  | .mark o f r =>
-    if f = false ∧ r = false then s else
-    match s.live with
-    | [] => s
-    | p :: rest =>
-      if wouldRegister p o && (rest ++ s.dead).any (fun q => q.goReg.contains o) then
-        { s with fatal := true }
-      else onCurrent s (.mark o f r)
+  | .mark o f r => if f = false ∧ r = false then s else markRt s o f r
   | .fire o =>
     { s with live := s.live.map (fun p => use p (.fire o)), dead := s.dead.map (fun p => use p (.fire o)) }
   | .step => onCurrent s .step
@@ -151,12 +185,12 @@ def prim (s : Rt) (e : Prim) : Rt :=
     | false :: fs => { s with frames := fs }
     | _ => s
   | .setRaise k =>
-    match s.live with
-    | p :: _ =>
+    match s.live.find? (fun p => marked p k) with
+    | some p =>
       match (p.reg.getD []).find? (fun e => e.val.key == k) with
       | some e => { s with raising := (p.pid, e.order) :: s.raising }
       | none => s
-    | [] => s
+    | none => s
 
 /-- `Runtime.Close` with `n` contexts still to close -/
 def closeN : Nat → Rt → Rt
